@@ -32,6 +32,8 @@ func checkC03(c *Ctx) {
 	// "nothing is sent to replaced targets after the deploy returned": also when a rollout deploy that started earlier
 	// finishes later and puts the replaced service object back (known finding K9)
 	rStaleInstall(c, "R03.9 replaced-service-is-never-reinstalled", "SetRolloutTargets", "service-looked-up-before-the-health-wait-installed-after")
+	// the drain timeout given to `stop` / `pause` / `deploy` is the one the proxy drains with (shared with C20)
+	rFlagsBoundToCommand(c, "R03.10 flags-bound-to-the-command-object")
 }
 
 func isLoadOfGlobal(v ssa.Value, g *ssa.Global) bool {
